@@ -6,7 +6,7 @@ S="$1"
 REPO="${VERIF_REPO:-/repo}"
 mkdir -p "$S"
 rsync -a --delete --exclude .git "$REPO"/ "$S"/
-cp -r /verif/e "$S"/ve
+cp -r "${VERIF_HOME:-/verif}"/e "$S"/ve
 cd "$S"
 go build -trimpath -tags verif -o "$S"/ve.bin ./ve/cmd/ve
 go build -trimpath -tags verif -o "$S"/macat.bin ./macat/macat
